@@ -220,9 +220,9 @@ theorem crop_get (l : Conv ℝ) (pg : V3 ℝ) (ih iw c i j : ℕ) (hi : i < ih) 
     cases pg[c]? <;> simp
   rw [h1]
   have h2 : ((((pg.getD c []).drop l.padding.1).take ih).map (fun row => (row.drop l.padding.2).take iw)).getD i [] =
-      ((((pg.getD c []).drop l.padding.1).take ih).getD i []).drop l.padding.2 |>.take iw := by
+      List.take iw (List.drop l.padding.2 ((((pg.getD c []).drop l.padding.1).take ih).getD i [])) := by
     simp only [List.getD_eq_getElem?_getD, List.getElem?_map]
-    cases (((pg.getD c []).drop l.padding.1).take ih)[i]? <;> simp
+    cases (List.take ih (List.drop l.padding.1 (pg[c]?.getD [])))[i]? <;> simp
   rw [h2, getD_take_drop _ _ _ _ _ hj, getD_take_drop _ _ _ _ _ hi]
 
 /-- **`⟨padded gradient, pad(v)⟩ = ⟨crop(padded gradient), v⟩`** whenever the padded tensor holds `v`
@@ -240,23 +240,24 @@ theorem pad_crop_adjoint (l : Conv ℝ) (pg v vp : V3 ℝ) (kc ih iw : ℕ)
       else 0 := by
     intro y
     by_cases hy : l.padding.1 ≤ y ∧ y < l.padding.1 + ih
-    · rw [if_pos hy, ← sum_window (iw + 2 * l.padding.2) l.padding.2 iw (by omega)]
+    · rw [if_pos hy]
+      have hw := sum_window (iw + 2 * l.padding.2) l.padding.2 iw (by omega)
+        (fun x => L.get3D 0 pg c y x * L.get3D 0 v c (y - l.padding.1) (x - l.padding.2))
+      simp only [Nat.add_sub_cancel_left] at hw
+      rw [← hw]
       apply sum_congr rfl; intro x _
       rw [hvp]
       by_cases hx : l.padding.2 ≤ x ∧ x < l.padding.2 + iw
       · rw [if_pos ⟨hy.1, hy.2, hx.1, hx.2⟩, if_pos hx]
-        have : l.padding.2 + (x - l.padding.2) = x := by omega
-        simp only []
       · rw [if_neg (fun h => hx ⟨h.2.2.1, h.2.2.2⟩), if_neg hx]; ring
     · rw [if_neg hy]
       apply sum_eq_zero; intro x _
       rw [hvp, if_neg (fun h => hy ⟨h.1, h.2.1⟩)]; ring
   simp only [hrow]
-  rw [sum_window (ih + 2 * l.padding.1) l.padding.1 ih (by omega)]
+  rw [sum_window (ih + 2 * l.padding.1) l.padding.1 ih (by omega)
+    (fun y => ∑ j ∈ range iw, L.get3D 0 pg c y (l.padding.2 + j) * L.get3D 0 v c (y - l.padding.1) j)]
   apply sum_congr rfl; intro i hi
   apply sum_congr rfl; intro j hj
-  rw [crop_get l pg ih iw c i j (mem_range.mp hi) (mem_range.mp hj)]
-  congr 2
-  omega
+  rw [crop_get l pg ih iw c i j (mem_range.mp hi) (mem_range.mp hj), Nat.add_sub_cancel_left]
 
 end ConvAdjoint
